@@ -38,8 +38,8 @@ claimed["C18"] = dict(
    ref="DESIGN §4 C18")
 
 claimed["C11"] = dict(
-   text="Deductive proof of contracts taken from the property statement. allNamedTypes: exactly the declared named types of the package scope, strictly increasing by name (hence each once, in name order). fetchPkgUnions: a named interface is a key exactly when some non-interface named type of the same package implements it (types.Implements, uninterpreted); its member list holds exactly those types, strictly increasing by name, never empty. createType (all 216 obligations, modular over the recursion with handleType): a union node carries the name of its type and one non-nil member node per member of the union, however it is reached; the analysis table never holds a nil node and the union stored for a named type carries that name. setImplements: every reported union is an analysed union of the table that lists the struct, strictly increasing by qualified name (each once); populateTypes applies it to every struct node of the table (ghost flag).",
-   note="Trusted: govc and the SMT solvers; go/types accessors as pure functions with the axioms of contracts/extern/base.spec (Scope.Names sorted and duplicate free, Lookup(n).Name()==n, a declared named type's Obj().Type() is itself, distinct named types have distinct qualified names, aliases are *types.Alias); sort.Slice; fetchEnumsAndUnions (recursive closure over the import graph) has an ASSUMED contract (keys are named types, enum nodes non-nil) and a bounded harness; fetchStructComments is opaque. NOT proved: completeness of setImplements (every analysed union listing the struct is reported) — the existential goal is out of the solvers' reach, it is exercised by the always-run bounded harness only; that every struct node reachable through links is a value of the table (closure half of C12).",
+   text="Deductive proof of contracts taken from the property statement. allNamedTypes: exactly the declared named types of the package scope, strictly increasing by name (hence each once, in name order). fetchPkgUnions: a named interface is a key exactly when some non-interface named type of the same package implements it (types.Implements, uninterpreted); its member list holds exactly those types, strictly increasing by name, never empty. createType (all 216 obligations, modular over the recursion with handleType): a union node carries the name of its type and one non-nil member node per member of the union, however it is reached; the analysis table never holds a nil node and the union stored for a named type carries that name. setImplements: the reported unions are exactly the analysed unions of the table that list the struct (both directions), strictly increasing by qualified name (each once); populateTypes applies it to every struct node of the table (ghost flag).",
+   note="Trusted: govc and the SMT solvers; go/types accessors as pure functions with the axioms of contracts/extern/base.spec (Scope.Names sorted and duplicate free, Lookup(n).Name()==n, a declared named type's Obj().Type() is itself, distinct named types have distinct qualified names, aliases are *types.Alias); sort.Slice; fetchEnumsAndUnions (recursive closure over the import graph) has an ASSUMED contract (keys are named types, enum nodes non-nil) and a bounded harness; fetchStructComments is opaque. NOT proved: that every struct node reachable through links is a value of the table (closure half of C12).",
    ref="DESIGN §4 C11")
 
 not_applicable = {
